@@ -29,6 +29,7 @@ type World struct {
 	CS        *Contracts
 	TPkgs     map[string]*types.Package // package name -> types package (repo + imports)
 	cmpCache  map[string]bool
+	initReach map[*ssa.Function]bool
 	frozen    map[string]bool
 	implCache map[string][]types.Type
 	allNamed  []types.Type
@@ -42,7 +43,11 @@ const repoModule = "github.com/krotik/ecal"
 
 func LoadWorld(repo, specDir string) (*World, error) {
 	cfg := &packages.Config{Mode: packages.LoadAllSyntax, Dir: repo, BuildFlags: []string{"-tags=verif"}}
-	pkgs, err := packages.Load(cfg, "./parser", "./interpreter", "./scope", "./engine/...", "./util", "./stdlib", "./cli/tool", "./config")
+	patterns := []string{"./parser", "./interpreter", "./scope", "./engine/...", "./util", "./stdlib", "./cli/tool", "./config"}
+	if _, err := os.Stat(repo + "/parser"); err != nil {
+		patterns = []string{"./..."} // not the ecal tree (engine self-test module)
+	}
+	pkgs, err := packages.Load(cfg, patterns...)
 	if err != nil {
 		return nil, err
 	}
@@ -273,7 +278,7 @@ func (w *World) immutableArr(a string) bool {
 		// package-level variables which only package initialisers write (error values, tables)
 		written := map[string]bool{}
 		for f, ws := range w.Mod.computeGlobalWrites() {
-			isInit := f.Signature.Recv() == nil && f.Parent() == nil && strings.HasPrefix(f.Name(), "init")
+			isInit := isPkgInit(f)
 			for _, g := range ws {
 				if !isInit {
 					written[g.Global] = true
